@@ -256,6 +256,12 @@ class Interp(object):
         pass
 
     # -- helpers -------------------------------------------------------------
+    def action_type(self, st):
+        k = int(self.shard.get("types", 1))
+        if k > 1:
+            return "t:type%d" % self.ctx.choose(k, "action type")
+        return "t:act%d" % st
+
     def value(self):
         self.n += 1
         return VALUE_MENU[(self.n * 5 + 2) % len(VALUE_MENU)]
@@ -424,7 +430,7 @@ class Interp(object):
         elif st == 4:
             ref = RefAction("t:typed", {"x": _ser(v)}, st)
         else:
-            ref = RefAction("t:act%d" % st, {"x": v}, st)
+            ref = RefAction(self.action_type(st), {"x": v}, st)
         ref.side = self.side
         self._attach(ref)
         action = None
